@@ -19,7 +19,13 @@ def _c14_score(c):
   return len(incs) + 3 * (len(incs) - len(set(incs))) + (100 if c.get('family') == 'locs' else 0)
 
 
-SCORE = {'C14': _c14_score, 'C15': lambda c: 0, 'C16': lambda c: len(c['result']['chain'])}
+def _c16_score(c):
+  """Deep location chains first; then faults that directly follow a complete block / binding in the same text."""
+  after = sum(1 for d in c['files'].values() for a, b in zip(d, d[1:]) if b['t'] == 'syntax' and a['t'] in ('block', 'bind', 'macro'))
+  return len(c['result']['chain']) + 2 * after
+
+
+SCORE = {'C14': _c14_score, 'C15': lambda c: 0, 'C16': _c16_score}
 CLAUSES = {
     'C14': ('applied-statements', 'returned-tree', 'status', 'entry-point', 'location-chain', 'provenance', 'recorded-imports'),
     'C15': ('applied-statements', 'status', 'returned-tree', 'recorded-imports'),
